@@ -25,7 +25,7 @@ ASSUMPTIONS = [
   "only if it persists under both index-signedness readings (strict LRM and tool consensus)",
   "text outside E2's subset grammar that may still be legal SystemVerilog (SVUnsupportedError) is counted as inconclusive",
 ]
-QUICK_S = 80
+QUICK_S = 240
 THOROUGH_S = 1500
 
 
